@@ -59,14 +59,14 @@ def diffState (i m : State) : List (String × String × String) :=
   diffField "params" i.params m.params ++
   diffField "faults" i.faults m.faults ++ diffField "faultIdx" i.faultIdx m.faultIdx ++ diffField "fishing" i.fishing m.fishing ++
   diffField "workers" i.workers m.workers ++ diffField "did" i.did m.did ++ diffField "staking" i.staking m.staking ++
-  diffField "global" i.global m.global ++ diffField "h" i.h m.h ++ diffField "seed" i.seed m.seed
+  diffField "h" i.h m.h ++ diffField "seed" i.seed m.seed
 
 def resStr : Res → String
   | .ok => "ok" | .err => "err" | .panic => "panic" | .hang => "hang"
 
 structure DAcc where
   env : Env := default
-  prev : Option State := none
+  prev : Option Sys := none
   hist : Nat := 0
   steps : Nat := 0
   compared : Nat := 0
@@ -81,10 +81,12 @@ def processLine (acc : DAcc) (line : String) : IO DAcc := do
     if let .ok g := j.getObjVal? "genesis" then
       let env : Except String Env := getF g "env"
       let st : Except String State := getF g "state"
+      let gl : Dec := ((g.getObjVal? "state").toOption.bind (fun x => (x.getObjValAs? Int "global").toOption)).getD 0
       match env, st with
       | .ok env, .ok st =>
+        let st : Sys := ⟨st, gl⟩
         let hist := (j.getObjValAs? Nat "hist").toOption.getD 0
-        for (c, msg) in Monitors.checkState env st do
+        for (c, msg) in Monitors.checkState env st.st do
           IO.println s!"MONITOR hist={hist} i=genesis prop={c} {msg}"
         return { acc with env := env, prev := some st, hist := hist }
       | .error e, _ => IO.println s!"DECODE-ERROR genesis env: {e}"; return acc
@@ -94,7 +96,9 @@ def processLine (acc : DAcc) (line : String) : IO DAcc := do
       let opj := (j.getObjVal? "op").toOption.getD Json.null
       let k := (opj.getObjValAs? String "k").toOption.getD "?"
       let resS := ((j.getObjVal? "res").toOption.bind (fun r => (r.getObjValAs? String "res").toOption)).getD "?"
-      let st : Except String State := getF j "state"
+      let st0 : Except String State := getF j "state"
+      let gl : Dec := ((j.getObjVal? "state").toOption.bind (fun x => (x.getObjValAs? Int "global").toOption)).getD 0
+      let st : Except String Sys := st0.map (fun x => ⟨x, gl⟩)
       match st, parseOp opj, acc.prev with
       | .error e, _, _ => IO.println s!"DECODE-ERROR hist={acc.hist} i={i} state: {e}"; return { acc with prev := none }
       | _, .error e, _ => IO.println s!"DECODE-ERROR hist={acc.hist} i={i} op: {e}"; return { acc with prev := none }
@@ -112,7 +116,7 @@ def processLine (acc : DAcc) (line : String) : IO DAcc := do
           if mres ≠ implRes then
             acc := { acc with mismatches := acc.mismatches + 1 }
             IO.println s!"MISMATCH hist={acc.hist} i={i} op={k} field=res impl={resS} model={resStr mres}"
-          let ds := diffState (normalize implPost) (normalize mpost)
+          let ds := diffState (normalize implPost.st) (normalize mpost.st) ++ diffField "global" implPost.global mpost.global
           for (f, a, b) in ds do
             acc := { acc with mismatches := acc.mismatches + 1 }
             IO.println s!"MISMATCH hist={acc.hist} i={i} op={k} field={f} impl={a} model={b}"
